@@ -511,4 +511,102 @@ theorem hash_iter_sites_all_reviewed :
       s.2 = true ∨ s.1 ∈ reviewedHashIterSites ∨ s.1 ∈ defectiveHashIterSites := by
   decide
 
+/-! ## the key `sorted()` compares -/
+
+/-- Clause "regardless of string-hash randomisation" for every `sorted(<set of graph nodes>)`, as the tree is:
+    `BaseNode.__lt__` compares the identifier the set is keyed by (switch regenerated from the AST on every
+    run), so whatever order the set is iterated in, the nodes are emitted in one order - also when several
+    nodes carry the same label. -/
+theorem graph_nodes_tree_deterministic (n₁ n₂ : List Node) (hp : n₁.Perm n₂)
+    (hid : (n₁.map (·.ident)).Nodup) : emitNodesTree n₁ = emitNodesTree n₂ := by
+  have h : Gen.C12.nodeLtByIdent = true := by decide
+  have hk : nodeKeyOf true = (·.ident) := by funext n; simp [nodeKeyOf]
+  simp only [emitNodesTree, emitNodesBy, h, hk]
+  exact sortOn_perm_of_nodup _ n₁ n₂ hp hid
+
+/-- ... and the same for `sorted(<set of entities>)` (`FortranBase.__lt__`; toposort levels, `graph_all`),
+    for sets whose members have pairwise different identifiers. -/
+theorem entities_sorted_tree_deterministic (e₁ e₂ : List Node) (hp : e₁.Perm e₂)
+    (hid : (e₁.map (·.ident)).Nodup) : sortEntitiesTree e₁ = sortEntitiesTree e₂ := by
+  have h : Gen.C12.entityLtByIdent = true := by decide
+  have hk : nodeKeyOf true = (·.ident) := by funext n; simp [nodeKeyOf]
+  simp only [sortEntitiesTree, emitNodesBy, h, hk]
+  exact sortOn_perm_of_nodup _ e₁ e₂ hp hid
+
+/-- What holds for any compared key: node sets in which the key happens to distinguish the members. -/
+theorem graph_nodes_any_key_partial (byIdent : Bool) (n₁ n₂ : List Node) (hp : n₁.Perm n₂)
+    (hk : (n₁.map (nodeKeyOf byIdent)).Nodup) : emitNodesBy byIdent n₁ = emitNodesBy byIdent n₂ :=
+  sortOn_perm_of_nodup _ n₁ n₂ hp hk
+
+/-- Ordered by the label, two equally named procedures of different modules come out in the iteration order
+    of the set; ordered by the identifier they do not. -/
+theorem graph_nodes_label_key_witness :
+    emitNodesBy false [⟨cs! "proc~helper", cs! "helper"⟩, ⟨cs! "proc~helper~2", cs! "Helper"⟩]
+      ≠ emitNodesBy false [⟨cs! "proc~helper~2", cs! "Helper"⟩, ⟨cs! "proc~helper", cs! "helper"⟩] ∧
+    emitNodesBy true [⟨cs! "proc~helper", cs! "helper"⟩, ⟨cs! "proc~helper~2", cs! "Helper"⟩]
+      = emitNodesBy true [⟨cs! "proc~helper~2", cs! "Helper"⟩, ⟨cs! "proc~helper", cs! "helper"⟩] := by
+  refine ⟨?_, graph_nodes_any_key_partial true _ _ (List.Perm.swap _ _ _) (by decide)⟩
+  rw [emitNodesBy, emitNodesBy, sortOn_of_sorted _ _ (by decide), sortOn_of_sorted _ _ (by decide)]
+  decide
+
+/-- Every class of `ford/*.py` that defines an order (table regenerated on every run) compares the identifier,
+    and where the class also defines the identity of its objects in a set (`__eq__`, `__hash__`) it is the same
+    attribute: the order distinguishes whatever the set distinguishes. -/
+theorem order_defs_compare_the_set_identity :
+    ∀ d ∈ Gen.C12.orderDefs, d.2.1 = cs! "ident" ∧ (d.2.2.1 = [] ∨ d.2.2.1 = d.2.1) ∧ (d.2.2.2 = [] ∨ d.2.2.2 = d.2.1) := by
+  decide
+
+/-- Every `sorted()` / `.sort()` / keyed `min`, `max` of `ford/*.py` and every sort filter of the templates
+    (table regenerated on every run) uses the natural order of its elements (no `key=`, not reversed), or is one
+    of the keyed sorts reviewed as working on an input whose order is itself determined.  In particular no sort of
+    a set or of a directory listing has a key. -/
+theorem sort_sites_natural_or_reviewed :
+    ∀ s ∈ Gen.C12.sortSites,
+      (s.2.2.1 = [] ∧ s.2.2.2 = []) ∨
+      (s.2.1 = cs! "other" ∧ s.2.2.2 = [] ∧ (s.1, s.2.2.1) ∈ reviewedKeyedSorts) := by
+  decide
+
+/-! ## page directories -/
+
+/-- Clause "regardless of the order in which the file system enumerates" for the page tree, as the tree is:
+    the listing of a page directory is sorted by the entry names themselves (switch regenerated from the AST of
+    `get_page_tree` on every run) and the names in one directory are pairwise different, so the entries are
+    walked in one order whatever `os.listdir` returns - for every `ordered_subpage` list. -/
+theorem page_entries_tree_deterministic (ordered e₁ e₂ : List Str) (hp : e₁.Perm e₂) (hnd : e₁.Nodup) :
+    pageFileListTree ordered e₁ = pageFileListTree ordered e₂ := by
+  have h : Gen.C12.pageListNatural = true := by decide
+  have hk : pageKey true = id := by funext n; simp [pageKey]
+  simp only [pageFileListTree, pageFileList, h, hk]
+  rw [sortOn_perm_of_nodup id e₁ e₂ hp (by simpa using hnd)]
+
+/-- What holds for a keyed listing too: directories in which the key distinguishes the entries. -/
+theorem page_entries_any_key_partial (natural : Bool) (ordered e₁ e₂ : List Str) (hp : e₁.Perm e₂)
+    (hk : (e₁.map (pageKey natural)).Nodup) : pageFileList natural ordered e₁ = pageFileList natural ordered e₂ := by
+  simp only [pageFileList]
+  rw [sortOn_perm_of_nodup _ e₁ e₂ hp hk]
+
+/-- The walk starts with the user's `ordered_subpage` entries (those that are shown), in the order given:
+    the listing only decides the rest. -/
+theorem page_entries_user_order_first (natural : Bool) (o : Str) (ordered enum : List Str) :
+    ∃ rest, pageFileList natural (o :: ordered) enum = (if pageVisible o then [o] else []) ++ rest := by
+  simp only [pageFileList, List.isEmpty_cons, Bool.false_eq_true, if_false, List.cons_append, dedupAux,
+    List.contains_nil, List.filter_cons]
+  split <;> exact ⟨_, rfl⟩
+
+/-- Sorted by the lower-cased stem, a page `usage.md` next to a sub-directory `usage` (or `FAQ.md` next to
+    `faq.md`) is walked in the order of the file system; sorted by name it is not. -/
+theorem page_entries_stem_key_witness :
+    pageFileList false [] [cs! "index.md", cs! "usage.md", cs! "usage"]
+      ≠ pageFileList false [] [cs! "index.md", cs! "usage", cs! "usage.md"] ∧
+    pageFileList false [] [cs! "FAQ.md", cs! "faq.md"] ≠ pageFileList false [] [cs! "faq.md", cs! "FAQ.md"] ∧
+    pageFileList true [] [cs! "index.md", cs! "usage.md", cs! "usage"]
+      = pageFileList true [] [cs! "index.md", cs! "usage", cs! "usage.md"] := by
+  refine ⟨?_, ?_, page_entries_any_key_partial true [] _ _ ((List.Perm.swap _ _ _).cons _) (by decide)⟩
+  · simp only [pageFileList]
+    rw [sortOn_of_sorted _ _ (by decide), sortOn_of_sorted _ _ (by decide)]
+    decide
+  · simp only [pageFileList]
+    rw [sortOn_of_sorted _ _ (by decide), sortOn_of_sorted _ _ (by decide)]
+    decide
+
 end Ford.C12
